@@ -17,7 +17,8 @@ import weakref
 
 C_SRC = os.path.join(os.environ.get("VERIF_ROOT", "/verif"), "tools", "props", "c", "c36_helper.c")
 CDEF = """int c36_start(int i, int (*cb)(int)); int c36_call_async(int i); int c36_wait(int i);
-int c36_call(int i); int c36_exit(int i); int c36_direct(int (*cb)(int), int x);"""
+int c36_call(int i); int c36_exit(int i); int c36_direct(int (*cb)(int), int x); int c36_own(int i, int arg);"""
+NESTED = 50000
 
 
 class Token(object):
@@ -46,8 +47,15 @@ def setup():
 
     def cb(slot):
         c = h.case
-        if slot >= 100000:          # noise: a callback made by the Python main thread
+        if slot >= 100000:          # noise: a callback made by the Python main thread / a fresh own-bracket thread
             return 7
+        if slot >= NESTED:
+            # entered with the GIL already held (nested in an outer callback through a ctypes PYFUNCTYPE pointer,
+            # or inside the thread's own PyGILState_Ensure bracket): same thread state, same thread-local data
+            t = slot - NESTED - c.base
+            tok = getattr(h.tlocal, "token", None)
+            c.seen_nested[t] = tok.num if tok is not None else -1
+            return 11
         t = slot - c.base
         tok = getattr(h.tlocal, "token", None)
         if tok is None:
@@ -66,6 +74,11 @@ def setup():
                 break
             if cmd == "end":
                 break
+            if cmd == "nest":
+                r = h.pyfunc(NESTED + slot)
+                if r != 11:
+                    c.errors.append("nested callback of thread %d returned %r" % (t, r))
+                c.acks[t].set()
             if cmd == "drop":
                 # some code holding the GIL removes the canary from this thread's thread-state dict
                 # (what PyThreadState_Clear would do): thread_canary_dealloc runs now, the thread lives on
@@ -78,6 +91,8 @@ def setup():
     _gd.argtypes = []
     h.getdict = lambda: ctypes.cast(_gd(), ctypes.py_object).value
     h.cbptr = h.ffi.callback("int(int)", cb)
+    # the same C function pointer, called WITHOUT releasing the GIL
+    h.pyfunc = ctypes.PYFUNCTYPE(ctypes.c_int, ctypes.c_int)(int(h.ffi.cast("intptr_t", h.cbptr)))
     return h
 
 
@@ -93,6 +108,7 @@ def run_case(h, case, base, timeout):
     c.cmds = [queue.SimpleQueue() for _ in range(n)]
     c.acks = [threading.Event() for _ in range(n)]
     c.dropped_ok = {}
+    c.seen_nested = {}
     h.case = c
     started, obs = set(), []
     lib = h.lib
@@ -116,6 +132,26 @@ def run_case(h, case, base, timeout):
                 return dict(status="timeout", detail="thread %d did not perform the drop" % t, obs=obs)
             if not c.dropped_ok.get(t):
                 c.errors.append("thread %d had no cffi.thread.canary entry in its thread-state dict" % t)
+        elif kind == "nest":
+            c.acks[t].clear()
+            c.seen_nested.pop(t, None)
+            c.cmds[t].put("nest")
+            if not c.acks[t].wait(timeout):
+                return dict(status="timeout", detail="thread %d did not perform the nested callback" % t, obs=obs)
+            first = c.seen_nested.get(t, -1) + 1
+        elif kind == "own":
+            c.seen_nested.pop(t, None)
+            r = lib.c36_own(base + t, NESTED + base + t)
+            if r != 11:
+                c.errors.append("own-bracket callback of thread %d returned %r" % (t, r))
+            first = c.seen_nested.get(t, -1) + 1
+        elif kind == "ownfresh":
+            # not a model event: a thread that never called back brackets a callback with its own
+            # PyGILState_Ensure/Release (its thread state is created and destroyed by CPython)
+            slot = base + n + t
+            if lib.c36_start(slot, h.cbptr) != 0 or lib.c36_own(slot, 100000) != 7 or lib.c36_exit(slot) != 0:
+                c.errors.append("fresh own-bracket thread failed")
+            continue
         elif kind == "end":
             c.cmds[t].put("end")
             r = lib.c36_wait(base + t)
@@ -149,7 +185,7 @@ def main(payload):
             with open(prog, "w") as f:
                 f.write("%d" % i)
         out.append(run_case(h, case, base, payload.get("timeout", 30)))
-        base += case["n"]
+        base += 2 * case["n"] + 2
     if prog:
         with open(prog, "w") as f:
             f.write("done")
